@@ -45,8 +45,8 @@ type Run struct {
 	simStart   time.Time
 	simElapsed time.Duration
 	cleanups   []func()
-	seqHash  uint64 // hash of scheduling decisions, for interleaving counts / determinism
-	Sample   any    // a written-out sample case for evidence
+	seqHash    uint64 // hash of scheduling decisions, for interleaving counts / determinism
+	Sample     any    // a written-out sample case for evidence
 }
 
 var progress atomic.Int64 // bumped by drivers; watched by the real-time watchdog
